@@ -221,6 +221,20 @@ Theorem C17_fragment_roll_one_frame : forall f : Z, update_shift f = (- f)%Z.
 Proof. exact frag_update_shift. Qed.
 Print Assumptions C17_fragment_roll_one_frame.
 
+(* the regenerated arithmetic is what the model's functions do: update() rolls by -shift / frame = one frame = fs_push; the stacked
+   axis of the declared shape is stacked_dim *)
+Theorem C17_fs_push_is_regenerated_roll : forall (F : Type) (w : list F) (o : F) (f : Z),
+  (0 < f)%Z -> fs_push w o = skipn (frames_rolled f) w ++ [o].
+Proof. exact fs_push_is_regenerated_roll. Qed.
+Print Assumptions C17_fs_push_is_regenerated_roll.
+
+Theorem C17_stacked_shape_is_regenerated_dim : forall ts s,
+  ts <> [] -> s <> [] -> Forall (fun t => t_shape t = s) ts ->
+  Z.of_nat (hd 0 (t_shape (tcat true ts))) = stacked_dim (Z.of_nat (hd 0 s)) (Z.of_nat (length ts)) /\
+  Z.of_nat (last (t_shape (tcat false ts)) 0) = stacked_dim (Z.of_nat (last s 0)) (Z.of_nat (length ts)).
+Proof. exact stacked_shape_is_regenerated_dim. Qed.
+Print Assumptions C17_stacked_shape_is_regenerated_dim.
+
 Theorem C17_fragment_default_order : default_channels_first = false.
 Proof. exact frag_default_order. Qed.
 Print Assumptions C17_fragment_default_order.
